@@ -85,6 +85,125 @@ def expectedDendrogram (a : DendroArgs) : Expected :=
       | none => []
       | some names => (List.range n).map fun i => plainOf (names.getD i []) }
 
+/-! ### geometry: every edge path joins the shapes of its two end nodes -/
+
+/-- blank-separated tokens -/
+def splitBlank (s : PyStr) : List PyStr :=
+  let (acc, cur) := s.foldl (fun (st : List PyStr × PyStr) c =>
+    if c = 32 then (if st.2.isEmpty then st.1 else st.1 ++ [st.2], []) else (st.1, st.2 ++ [c])) ([], [])
+  if cur.isEmpty then acc else acc ++ [cur]
+
+/-- `[-]digits[.digits]` as a rational -/
+def parseDec (s : PyStr) : Option Rat :=
+  let (neg, body) := match s with
+    | 45 :: r => (true, r)
+    | r => (false, r)
+  let (ip, rest) := spanP isDigit body
+  let frac : Option PyStr := match rest with
+    | [] => some []
+    | 46 :: f => if f.all isDigit then some f else none
+    | _ => none
+  match frac with
+  | none => none
+  | some f =>
+    if ip.isEmpty && f.isEmpty then none
+    else
+      let v : Rat := (decVal ip : Rat) + (decVal f : Rat) / ((10 ^ f.length : Nat) : Rat)
+      some (if neg then -v else v)
+
+/-- `(cx, cy, r)` of the circles, in document order -/
+def circlesOf : List Piece → List (PyStr × PyStr × PyStr)
+  | [] => []
+  | .etag m as _ :: r =>
+    if m == py!"circle" then
+      ((attrVal? as py!"cx").getD [], (attrVal? as py!"cy").getD [], (attrVal? as py!"r").getD []) :: circlesOf r
+    else circlesOf r
+  | _ :: r => circlesOf r
+
+/-- `M x1 y1 x2 y2` of the edge paths (those with a `stroke` attribute), in document order -/
+def strokePathsOf : List Piece → List (List PyStr)
+  | [] => []
+  | .etag m as _ :: r =>
+    if m == py!"path" && (attrVal? as py!"stroke").isSome then
+      splitBlank ((attrVal? as py!"d").getD []) :: strokePathsOf r
+    else strokePathsOf r
+  | _ :: r => strokePathsOf r
+
+/-- does the path `M x1 y1 x2 y2` start at the centre of `ci` and end at (undirected) / near (directed: within the
+    radius of the target plus rounding) the centre of `cj`? -/
+def joins (directed : Bool) (ci cj : PyStr × PyStr × PyStr) (path : List PyStr) : Bool :=
+  match path with
+  | [m, x1, y1, x2, y2] =>
+    m == py!"M" && x1 == ci.1 && y1 == ci.2.1 &&
+    (if directed then
+      match parseDec x2, parseDec y2, parseDec cj.1, parseDec cj.2.1, parseDec cj.2.2 with
+      | some a, some b, some c, some d, some r => (a - c) * (a - c) + (b - d) * (b - d) ≤ (r + 2) * (r + 2)
+      | _, _, _, _, _ => false
+     else x2 == cj.1 && y2 == cj.2.1)
+  | _ => false
+
+/-- remove the first element satisfying `p` -/
+def removeFirst (p : α → Bool) : List α → Option (List α)
+  | [] => none
+  | x :: xs => if p x then some xs else (removeFirst p xs).map (x :: ·)
+
+/-- undirected (exact tokens): every expected edge is matched by a path of its own, and no path is left -/
+def matchExact (centre : Nat → Option (PyStr × PyStr × PyStr)) : List (Nat × Nat) → List (List PyStr) → Bool
+  | [], paths => paths.isEmpty
+  | (i, j) :: es, paths =>
+    match centre i, centre j with
+    | some ci, some cj =>
+      (match removeFirst (joins false ci cj) paths with
+       | some rest => matchExact centre es rest
+       | none => false)
+    | _, _ => false
+
+/-- directed (the arrow stops at the rim of the target, so the end point is only near its centre): as many paths as
+    expected edges, every expected edge has a path that joins its end nodes, every path joins the end nodes of an
+    expected edge -/
+def matchNear (centre : Nat → Option (PyStr × PyStr × PyStr)) (es : List (Nat × Nat)) (paths : List (List PyStr)) :
+    Bool :=
+  let ok := fun (e : Nat × Nat) (p : List PyStr) =>
+    match centre e.1, centre e.2 with
+    | some ci, some cj => joins true ci cj p
+    | _, _ => false
+  es.length == paths.length && es.all (fun e => paths.any (ok e)) && paths.all (fun p => es.any (fun e => ok e p))
+
+def matchEdges (directed : Bool) (centre : Nat → Option (PyStr × PyStr × PyStr))
+    (es : List (Nat × Nat)) (paths : List (List PyStr)) : Bool :=
+  if directed then matchNear centre es paths else matchExact centre es paths
+
+/-- `visualize_graph` without pie charts, `node_order` a permutation: the edge paths are exactly the displayed edges,
+    each joining the circles of its end nodes -/
+def geomGraph (a : GraphArgs) (ps : List Piece) : Bool :=
+  let n := if a.hasAdj then a.n else a.pos.length
+  let order := a.nodeOrder.getD (List.range n)
+  let isPerm := order.length == n && (List.range n).all order.contains
+  if a.probs.isSome || !isPerm || !a.displayEdges then true
+  else
+    let body := dropDefs ps 0
+    let circles := circlesOf body
+    let centre := fun i => (order.idxOf? i).bind fun k => circles[k]?
+    let es := (if a.hasAdj then a.entries else []).filter fun e => e.2.2 ≠ 0
+    let directed := a.directed.getD (!symmetricSpec n es)
+    let shown := fun (i j : Nat) => !directed || a.pos.getD i (0, 0) != a.pos.getD j (0, 0)
+    let expected := ((es.filter fun e => shown e.1 e.2.1).map fun e => (e.1, e.2.1)) ++
+      ((a.edgeLabels.filter fun l => entryAt es l.1.toNat l.2.1.toNat = 0 && shown l.1.toNat l.2.1.toNat).map
+        fun l => (l.1.toNat, l.2.1.toNat))
+    matchEdges directed centre expected (strokePathsOf body)
+
+/-- `visualize_bigraph` without pie charts: row circles first, then column circles -/
+def geomBigraph (a : BigraphArgs) (ps : List Piece) : Bool :=
+  if a.probsRow.isSome || a.probsCol.isSome || !a.displayEdges then true
+  else
+    let circles := circlesOf ps
+    let centre := fun i => circles[i]?
+    let es := a.entries.filter fun e => e.2.2 ≠ 0
+    let expected := (es.map fun e => (e.1, a.nRow + e.2.1)) ++
+      ((a.edgeLabels.filter fun l => entryAt a.entries l.1.toNat l.2.1.toNat = 0).map
+        fun l => (l.1.toNat, a.nRow + l.2.1.toNat))
+    matchEdges false centre expected (strokePathsOf ps)
+
 /-- the whole observation of C20 on a returned string -/
 def docMeets (doc : PyStr) (e : Expected) : Bool :=
   wf doc &&
